@@ -3,6 +3,7 @@ C03 — IR -> proto -> IR preserves the model; serialization has no side effects
 -/
 import IrVerif.Lemmas.ScopeIdem
 import IrVerif.Lemmas.ScopeReplDeser
+import IrVerif.Lemmas.ScopeModel
 import IrVerif.Props.C17
 namespace IrVerif.Scope
 
@@ -289,6 +290,41 @@ theorem C03_roundtrip_reloadable (w : World) (h : Reloadable w) :
       obtain ⟨_, _, hc⟩ := hco kv hkv
       obtain ⟨t', h1, _, h3, h4⟩ := hc t htc
       exact ⟨t', h1, h3, h4⟩⟩
+
+/-- the round trip relation for models with functions: main graph and functions (same identifiers, same
+    order) are the same trees up to `σ`; `σ` is injective on, and keeps the names of, every value the
+    model introduces; the values the proto carries information for (`emitM`: for a function its named
+    inputs and named node outputs) keep their serializable type / shape / documentation; initializers (of
+    graphs nested anywhere) keep their tensor payload. -/
+structure IsoM (w D : MWorld) (σ : Nat → Nat) : Prop where
+  tree : TreeIsoG w.st.vals σ w.root D.root
+  funcs : TreeIsoFs w.st.vals σ w.funcs D.funcs
+  inj : ∀ a ∈ domM w, ∀ b ∈ domM w, σ a = σ b → a = b
+  names : ∀ v ∈ domM w, (D.st.vals (σ v)).name = (w.st.vals v).name
+  infos : ∀ v ∈ emitM w, (D.st.vals (σ v)).info = (w.st.vals v).info.emit
+  consts : ∀ kv ∈ allInitsM w, ∀ t, (w.st.vals kv.2).const = some t →
+    ∃ t', (D.st.vals (σ kv.2)).const = some t' ∧ (D.st.tens t').name = some kv.1 ∧ D.st.tdata t' = w.st.tdata t
+
+/-- **C03_roundtrip_model**: the round trip for models WITH FUNCTIONS (`MWorld`: main graph + functions keyed
+    by (domain, name, overload); `serializeM` / `deserializeM` model `serialize_model` / `deserialize_model`
+    for IR version >= 10, where a function's value_info lives in the FunctionProto).  Hypothesis
+    `ReloadableM`: main graph and every function satisfy their resolution certificate (`replG` / `replF`:
+    a function is a graph without initializers, without enclosing scope, whose outputs are bound in its
+    scope and whose equally named inputs carry the same information), every value is introduced once in the
+    whole model, function identifiers are distinct. -/
+theorem C03_roundtrip_model (w : MWorld) (h : ReloadableM w) :
+    ∃ (w1 : MWorld) (P : ModelP) (D : MWorld) (σ : Nat → Nat),
+      serializeM w = .ok (w1, P) ∧ deserializeM P = .ok D ∧ IsoM w D σ := by
+  obtain ⟨w1, P, D, B, hP, hD, hrs, hk, ht, htf, hio, hco⟩ := reloadableM_roundtrip w h
+  have hkeys : ∀ v ∈ domM w, v ∈ B.map (·.1) := fun v hv => hk ▸ hv
+  exact ⟨w1, P, D, sig B, hP, hD, ⟨TreeRelG.iso _ B _ _ ht, TreeRelFs.iso _ B _ _ htf,
+    fun a ha b hb he => hrs.sig_inj (hkeys a ha) (hkeys b hb) he,
+    fun v hv => hrs.sig_name (hkeys v hv),
+    fun v hv => (hio v hv).2,
+    fun kv hkv t htc => by
+      obtain ⟨_, _, hc⟩ := hco kv hkv
+      obtain ⟨t', h1, _, h3, h4⟩ := hc t htc
+      exact ⟨t', h1, h3, h4⟩⟩⟩
 
 /-! ### non-vacuity -/
 
